@@ -685,6 +685,94 @@ Section L.
     rewrite dis_sub_unfold in *. exact Hk.
   Qed.
 
+  (* ---------------------------------------------------------------------------------------- *)
+  (* (2) the rendered tree is plain data                                                       *)
+  (* ---------------------------------------------------------------------------------------- *)
+  Definition plain_entry (kv : pyval * pyval) : bool := match fst kv with PStr _ => plain_data (snd kv) | _ => false end.
+  Lemma plain_dict : forall l, plain_data (PDict 0 l) = forallb plain_entry l.
+  Proof.
+    induction l as [|[k v] l IH]; [reflexivity|]. cbn [forallb]. rewrite <- IH. unfold plain_entry. cbn [fst snd].
+    destruct k; reflexivity.
+  Qed.
+  Lemma plain_list : forall l, plain_data (PList 0 l) = forallb plain_data l.
+  Proof. induction l as [|v l IH]; [reflexivity|]. cbn [forallb]. rewrite <- IH. reflexivity. Qed.
+
+  Notation dyn_plain := (dyn_plain F).
+  Definition dynp_pair (c : cfg) (kn : str * node) : bool :=
+    match dget (fst kn) (c_data c) with Some v' => dyn_plain (snd kn) v' | None => true end.
+  Definition dynp_here (c : cfg) : bool :=
+    forallb (fun k => match dget k (c_data c) with Some (VLeaf x) => plain_data x | _ => true end) (c_dyn c).
+  Lemma dynp_sub_unfold : forall dyn vs fs c, dyn_plain (NSub dyn vs fs) (VCfg c) = dynp_here c && forallb (dynp_pair c) fs.
+  Proof.
+    intros. cbn [Roundtrip.dyn_plain]. unfold dynp_here. f_equal.
+    induction fs as [|[k nd'] l IH]; [reflexivity|]. cbn [forallb]. rewrite <- IH. reflexivity.
+  Qed.
+  Lemma dynp_list_unfold : forall req vs fs l,
+    dyn_plain (NCfgList req vs fs) (VList l) = forallb (fun it => dyn_plain (NSub false [] fs) (VCfg it)) l.
+  Proof. intros req vs fs. induction l as [|it l IH]; [reflexivity|]. cbn [forallb]. rewrite <- IH. reflexivity. Qed.
+
+  (* what a field renders is plain data (C05: to_basic yields JSON-like values) *)
+  Hypothesis leaf_basic_plain : forall f x b, lto_basic f x = Ok b -> plain_data b = true.
+
+  Definition PL (n : nat) : Prop := forall nd, (nsize F nd <= n)%nat -> forall v p t,
+    tree_slot None nd p v = Ok t -> dyn_plain nd v = true -> plain_data t = true.
+
+  Lemma fields_plain : forall n, PL n -> forall c pre fs2 ts, Forall (fun kn => (nsize F (snd kn) <= n)%nat) fs2 ->
+    tree_fields None (c_data c) pre fs2 = Ok ts -> forallb (dynp_pair c) fs2 = true -> forallb plain_entry ts = true.
+  Proof.
+    intros n HPL c pre. induction fs2 as [|[k nd] r IH]; intros ts Hsz Ht Hd; cbn [tree_fields] in Ht.
+    - inversion Ht; reflexivity.
+    - inversion Hsz as [|? ? Hs1 Hs2]; subst. cbn [forallb] in Hd. apply andb_true_iff in Hd. destruct Hd as [Hd1 Hd2].
+      unfold dynp_pair in Hd1. cbn [fst snd] in *.
+      destruct (dget k (c_data c)) as [fv|]; [|eapply IH; eauto].
+      destruct (tree_slot None nd (path_join pre k) fv) as [t| |] eqn:Et; try discriminate.
+      destruct (tree_fields None (c_data c) pre r) as [ts'| |] eqn:Er; try discriminate.
+      inversion Ht; subst. cbn [forallb]. unfold plain_entry at 1. cbn [fst snd].
+      rewrite (HPL nd Hs1 fv _ t Et Hd1). eapply IH; eauto.
+  Qed.
+
+  Lemma dyn_entries_plain : forall c, dynp_here c = true -> forallb plain_entry (dyn_entries (c_data c) (c_dyn c)) = true.
+  Proof.
+    intro c. unfold dynp_here, dyn_entries. induction (c_dyn c) as [|k r IH]; intro H; [reflexivity|].
+    cbn [forallb flat_map] in *. apply andb_true_iff in H. destruct H as [H1 H2]. rewrite forallb_app, (IH H2), andb_true_r.
+    destruct (dget k (c_data c)) as [[x| |]|]; try reflexivity. cbn [forallb]. unfold plain_entry. cbn [fst snd]. rewrite H1. reflexivity.
+  Qed.
+
+  Lemma cfg_plain : forall n, PL n -> forall fs, (fsize F fs <= n)%nat -> forall c pre t,
+    cfg_tree None fs pre c = Ok t -> dynp_here c && forallb (dynp_pair c) fs = true -> plain_data t = true.
+  Proof.
+    intros n HPL fs Hsz c pre t Ht Hd. unfold cfg_tree in Ht. apply andb_true_iff in Hd. destruct Hd as [Hd1 Hd2].
+    destruct (tree_fields None (c_data c) pre fs) as [ts| |] eqn:E; try discriminate. inversion Ht; subst.
+    rewrite plain_dict, forallb_app. rewrite (dyn_entries_plain c Hd1), andb_true_r.
+    apply (fields_plain n HPL c pre fs ts); [|exact E|exact Hd2]. apply Forall_forall. intros [k nd] Hin. cbn [snd]. pose proof (fsize_in F _ _ _ Hin). lia.
+  Qed.
+
+  Lemma PL_all : forall n, PL n.
+  Proof.
+    induction n as [|n IH]; intros nd Hsz v p t Ht Hd; [destruct nd; cbn [nsize] in Hsz; lia|].
+    destruct nd as [f|d1 v1 f1|req v1 f1].
+    - destruct v as [x| |]; try discriminate. cbn [Config.tree_slot] in Ht.
+      destruct (lto_basic f x) eqn:E; try discriminate. inversion Ht; subst. eapply leaf_basic_plain; eauto.
+    - destruct v as [|c|]; try discriminate. rewrite tree_slot_sub in Ht. rewrite dynp_sub_unfold in Hd.
+      eapply (cfg_plain n IH f1); eauto. rewrite nsize_sub in Hsz. lia.
+    - destruct v as [x| |l]; try discriminate.
+      + destruct x; try discriminate. cbn [Config.tree_slot] in Ht. inversion Ht; reflexivity.
+      + rewrite tree_slot_list in Ht. rewrite dynp_list_unfold in Hd.
+        destruct (tree_items None f1 p l 0) as [ts| |] eqn:E; try discriminate. inversion Ht; subst. rewrite plain_list.
+        assert (Hs' : (fsize F f1 <= n)%nat).
+        { change (nsize F (NCfgList req v1 f1)) with (nsize F (NSub false v1 f1)) in Hsz. rewrite nsize_sub in Hsz. lia. }
+        clear Ht. revert ts E Hd. generalize 0. induction l as [|it l IHl]; intros i ts E Hd; cbn [tree_items] in E.
+        * inversion E; reflexivity.
+        * cbn [forallb] in Hd. apply andb_true_iff in Hd. destruct Hd as [Hd1 Hd2].
+          destruct (cfg_tree None f1 (path_index p i) it) as [t1| |] eqn:E1; try discriminate.
+          destruct (tree_items None f1 p l (i + 1)) as [ts'| |] eqn:E2; try discriminate. inversion E; subst.
+          cbn [forallb]. rewrite (IHl _ _ E2 Hd2), andb_true_r.
+          rewrite dynp_sub_unfold in Hd1. eapply (cfg_plain n IH f1); eauto.
+  Qed.
+
+  Theorem tree_plain : forall fs c t, to_tree None fs c = Ok t -> dynamic_plain F fs c = true -> plain_data t = true.
+  Proof. intros fs c t Ht Hd. unfold Config.to_tree in Ht. unfold dynamic_plain in Hd. eapply PL_all; eauto. Qed.
+
   (* (3) with a document codec that decodes what it encodes on its domain: loads (dumps c) fresh ≈ c *)
   Section Codec.
     Variable B : Type.
